@@ -12,13 +12,16 @@ ID = "C05"
 LEVEL = "exploration"
 RULE = (
     "Hypothesis-generated models with closed-form optimum (A: signal-strength only, B: one free "
-    "normfactor per bin, C: on/off) and small well-posed general models x data around the expectation "
+    "normfactor per bin, C: on/off), small well-posed general models and strongly correlated models (K: signal "
+    "normfactor x normsys against a free background normalisation with per-bin shapesys) x data around the expectation "
     "(zero counts, Asimov non-integers) x init points / bounds / fixed masks x {fit, fixed_poi_fit} x "
     "{scipy, minuit} x backend x do_grad x do_stitch (all flag combinations of the shard run on every "
-    "case). Oracles whenever a fit returns: inside bounds; fixed parameters and fixed POI at the supplied "
+    "case; numpy+minuit additionally with strategy=0, the MIGRAD strategy pyhf selects when gradients are used). Oracles whenever a fit returns: inside bounds; fixed parameters and fixed POI at the supplied "
     "value; reported objective == 2*reference NLL at the returned point; minuit uncertainties 0 for fixed "
     "parameters; objective <= closed-form optimum / best objective among 60 random feasible points, "
-    "perturbations, an independent L-BFGS-B polish of the reference objective and the other configurations (+ tolerance); closed-form families must succeed. "
+    "perturbations, a stand-alone HESSE (iminuit strategy 2 on the reference objective) at every point minuit "
+    "reports as a success, whose EDM must respect MIGRAD's own validity limit 10 x 0.002 x tolerance (x2.5 margin; "
+    "points within 0.1% of a bound excluded), an independent L-BFGS-B polish of the reference objective and the other configurations (+ tolerance); closed-form families must succeed. "
     "Non-trivial: >=1 free nuisance, optimum on a bound, or non-empty fixed mask; distinct by (model "
     "signature, mask, data, optimizer, backend)."
 )
@@ -26,6 +29,8 @@ ASSUMPTIONS = [
     "tol_opt on 2NLL: 2e-4 scipy (default SLSQP ftol 1e-6), 2e-3 minuit (tolerance 0.1); optimality can "
     "only be refuted ('any other feasible point' is sampled)",
     "reference NLL from vlib/refmodel.py, closed forms from vlib/refstats.py",
+    "the HESSE criterion separates 'MIGRAD stopped where its own convergence criterion holds' (recorded optimiser "
+    "limitation) from 'success reported although the criterion fails' (violation)",
 ]
 
 
@@ -84,8 +89,33 @@ def general_case(draw):
 
 
 @st.composite
+def correlated_case(draw):
+    """K: signal normfactor x normsys against a free background normalisation with a similar shape and a
+    per-bin shapesys - strongly correlated, not degenerate (the shapes differ and the nuisances are constrained)"""
+    nb = draw(st.integers(2, 4))
+    bkg = [float(draw(st.integers(60, 300))) for _ in range(nb)]
+    frac = draw(nice_float(0.08, 0.3))
+    sig = [float(max(1, round(b * frac * draw(nice_float(0.7, 1.3))))) for b in bkg]
+    unc = [float(max(1, round(b * draw(nice_float(0.05, 0.3))))) for b in bkg]
+    hi = draw(nice_float(1.05, 1.3))
+    lo = draw(nice_float(0.75, 0.95))
+    spec = {"channels": [{"name": "ch", "samples": [
+        {"name": "sig", "data": sig, "modifiers": [{"name": "mu", "type": "normfactor", "data": None},
+                                                   {"name": "sig_acc", "type": "normsys", "data": {"hi": hi, "lo": lo}}]},
+        {"name": "bkg", "data": bkg, "modifiers": [{"name": "bkg_norm", "type": "normfactor", "data": None},
+                                                   {"name": "bkg_shape", "type": "shapesys", "data": unc}]}]}],
+        "parameters": []}
+    main = []
+    for s_, b in zip(sig, bkg):
+        e = b + s_ * draw(st.sampled_from([0.0, 0.5, 1.0, 1.5]))
+        w = 2.0 * math.sqrt(e)
+        main.append(float(max(0, round(e + draw(nice_float(-w, w))))))
+    return {"family": "K", "spec": spec, "mu": draw(nice_float(0.0, 3.0)), "main": {"ch": main}}
+
+
+@st.composite
 def strategy_(draw, shard):
-    case = draw(st.one_of(family_case(), family_b(), general_case(), general_case()))
+    case = draw(st.one_of(family_case(), family_b(), general_case(), general_case(), correlated_case()))
     case["call"] = draw(st.sampled_from(["fit", "fit", "fixed_poi_fit"]))
     case["backend"], case["optimizer"] = shard["backend"], shard["optimizer"]
     case["fix_seed"] = [draw(st.integers(0, 5)) for _ in range(12)]
@@ -97,11 +127,50 @@ def strategy(shard):
     return strategy_(shard)
 
 
+EDM_GOAL = 2e-4  # 0.002 * tolerance(0.1) * errordef(1)
+EDM_MARGIN = 2.5
+
+
+def _hesse_edm(nll2, x, free, bounds):
+    """EDM reported by a stand-alone HESSE at x over the free parameters; None if HESSE itself is unhealthy."""
+    import numpy as np
+    from iminuit import Minuit
+
+    def f(z):
+        y = list(x)
+        for i, zi in zip(free, z):
+            y[i] = float(zi)
+        v = nll2(y)
+        return v if v == v and math.isfinite(v) else 1e300
+
+    # MINUIT's bound transformation flattens the objective at a limit: its EDM there is not comparable
+    if any(min(x[i] - bounds[i][0], bounds[i][1] - x[i]) < 1e-3 * (bounds[i][1] - bounds[i][0]) for i in free):
+        return None
+    try:
+        m = Minuit(f, np.array([x[i] for i in free], dtype=float))
+        m.errordef = 1
+        m.limits = [bounds[i] for i in free]
+        m.strategy = 2
+        m.tol = 0.1
+        m.print_level = 0
+        m.hesse()
+        fm = m.fmin
+        if any(abs(float(a) - x[i]) > 1e-9 * (1 + abs(x[i])) for a, i in zip(m.values, free)):
+            return None
+        if fm.hesse_failed or not fm.has_posdef_covar or fm.has_made_posdef_covar or not fm.has_accurate_covar:
+            return None
+        return float(fm.edm)
+    except Exception:  # noqa: BLE001 - diagnostic aid only
+        return None
+
+
 def run_case(case, ctx):
     import pyhf
 
     if case["family"] == "B":
         spec, fam = spec_b(case), None
+    elif case["family"] == "K":
+        spec, fam = case["spec"], None
     else:
         spec, fam = build(case)
     ref = RefModel(spec)
@@ -141,7 +210,10 @@ def run_case(case, ctx):
         pi = cfg.poi_index
         sig = f"C05/{case['call']}/{case['optimizer']}/{case['backend']}"
         ad = case["backend"] != "numpy"
-        configs = [(st_, g) for st_ in (False, True) for g in ((False, True) if ad else (False,))]
+        configs = [(st_, g, None) for st_ in (False, True) for g in ((False, True) if ad else (False,))]
+        if case["optimizer"] == "minuit" and not ad:
+            # MIGRAD strategy 0 is what pyhf selects with gradients; requested explicitly it is reachable on numpy
+            configs += [(False, False, 0), (True, False, 0)]
         tol_opt = 2e-4 if case["optimizer"] == "scipy" else 2e-3
 
         def nll2(vec):
@@ -194,11 +266,13 @@ def run_case(case, ctx):
             return default_name
         results = {}
         cfg_of = {}
-        for do_stitch, do_grad in configs:
+        for do_stitch, do_grad, strat in configs:
             kw = dict(return_fitted_val=True, do_stitch=do_stitch, do_grad=do_grad)
+            if strat is not None:
+                kw["strategy"] = strat
             if case["optimizer"] == "minuit":
                 kw["return_uncertainties"] = True
-            tag = f"stitch{int(do_stitch)}_grad{int(do_grad)}"
+            tag = f"stitch{int(do_stitch)}_grad{int(do_grad)}" + ("" if strat is None else f"_strategy{strat}")
             all_fixed = all(f or (is_fp and i == pi) for i, f in enumerate(fixed))
             if do_stitch and all_fixed:
                 # recorded known finding: stitching out every parameter leaves the optimiser without variables
@@ -310,6 +384,16 @@ def run_case(case, ctx):
                             best_other, arg = fy, y
                 except Exception:  # noqa: BLE001 - the polish is an aid, never a verdict
                     pass
+            # MIGRAD's own convergence criterion, evaluated independently: HESSE (strategy 2) on the reference
+            # objective at the returned point; a success flag requires EDM <= 10 x goal (goal = 0.002*tol*errordef)
+            if case["optimizer"] == "minuit" and free and math.isfinite(f_ref):
+                edm = _hesse_edm(nll2, x, free, bounds)
+                if edm is not None:
+                    ctx.err("minuit_edm_over_limit", edm / (EDM_MARGIN * 10 * EDM_GOAL))
+                    ctx.count("minuit_success_points_checked_with_independent_hesse", 1)
+                    if edm > EDM_MARGIN * 10 * EDM_GOAL:
+                        ctx.fail(f"C05/minuit_reports_success_at_point_failing_its_convergence_criterion/{tag}",
+                                 edm=edm, limit=10 * EDM_GOAL, margin=EDM_MARGIN, point=x, reported=val)
             if best_other < val - tol_opt:
                 name = classify(f"{sig}/better_feasible_point_exists/{case['family']}/{tag}", do_stitch, do_grad,
                                 best_other, x, val, eff_fixed)
